@@ -22,6 +22,21 @@ for pid in sorted(REGISTRY):
         "technique": m["technique"],
     })
 man = dict(MANIFEST_META)
+# which engine serves which property: the deductive engines where contracts carry the property, the bounded engine always
+sys.path.insert(0, os.path.dirname(os.path.dirname(os.path.abspath(__file__))))
+try:
+    from vf.qvc import contracts as C
+    reg = C.load_contracts()
+    ded = sorted({p for c in reg.values() if not c.trusted for p in c.props})
+except Exception:
+    ded = []
+for e in man["engines"]:
+    if e["name"] == "qvc":
+        e["serves_properties"] = ded
+    elif e["name"] == "qvc_c":
+        e["serves_properties"] = ["C17"]
+    elif e["name"] == "bounded":
+        e["serves_properties"] = [c["property_id"] for c in checks]
 man["checks"] = checks
 man["not_applicable"] = na
 json.dump(man, open(os.path.join(os.path.dirname(os.path.dirname(os.path.abspath(__file__))), "MANIFEST.json"), "w"), indent=1)
